@@ -153,4 +153,7 @@ func c19Gen(r *vhRng) string {
 	return c19GenJust(r)
 }
 
-func TestVerifC19(t *testing.T) { vhMain(t, c19Gen, c19Run) }
+func TestVerifC19(t *testing.T) {
+	c19OwnLines("vc", "vcl", "just")
+	vhMain(t, c19Gen, c19Run)
+}
